@@ -139,6 +139,9 @@ def step (st : Option App.App) (toks : List String) : Option App.App × String :
         | none => (st, "bad-op")
       | ["commit"] => let (a', o) := a.step .commit; (some a', showOut o)
       | ["state"] => (st, showState a)
+      -- the node is stopped after a commit and started again from the state file: the model's state is what the
+      -- file holds (C13)
+      | ["restart"] => (st, "ok")
       | _ => (st, "bad-op")
 
 end Shutter.Drive.App
